@@ -26,6 +26,13 @@ theorem tie_state_at (es : List Elem) (off t : Int) :
       | none => simp [h2]
       | some e => simp [h2]
 
+/-- `TrafficLight.get_state_at_time_step` as the CURRENT source has it (translated) is the model's
+    `lightStateAt`, i.e. the light reports exactly what its cycle reports — also when the light is inactive. -/
+theorem tie_light_state_at (es : List Elem) (off t : Int) :
+    Gen.TrafficLight_get_state_at_time_step es off t = lightStateAt es off t := by
+  unfold Gen.TrafficLight_get_state_at_time_step lightStateAt
+  rw [tie_state_at]
+
 end CR.TL
 
 namespace CR.Occ
